@@ -18,6 +18,39 @@ def fmt(x, z=True):
     return x.strftime("%Y%m%d")
 
 
+OTHER_ZONES = ["Europe/London", "Europe/Berlin", "America/New_York", "America/Los_Angeles", "Asia/Tokyo", "Australia/Sydney", "Asia/Kolkata"]
+
+
+def in_zone(values, zone):
+    """the UTC datetimes as wall-clock times of ZONE, or None unless every one of them exists exactly once there"""
+    import zoneinfo
+    z = zoneinfo.ZoneInfo(zone)
+    out = []
+    for u in values:
+        if not (1902 <= u.year <= 2037):
+            return None
+        loc = u.replace(tzinfo=D.timezone.utc).astimezone(z).replace(tzinfo=None)
+        a = loc.replace(tzinfo=z, fold=0).astimezone(D.timezone.utc).replace(tzinfo=None)
+        b = loc.replace(tzinfo=z, fold=1).astimezone(D.timezone.utc).replace(tzinfo=None)
+        if a != u or b != u:
+            return None
+        out.append(loc)
+    return out
+
+
+def date_line(rng, prop, chunk, c, part):
+    """PROP:v1,v2,... in UTC form, or (sometimes) with a TZID of its own that differs from the event's"""
+    if c["is_date"]:
+        return prop + ";VALUE=DATE:" + ",".join(fmt(x) for x in chunk)
+    if rng.random() < 0.3:
+        zone = rng.choice([z for z in OTHER_ZONES if z != c["tzid"]])
+        loc = in_zone(chunk, zone)
+        if loc is not None:
+            part.count("lines_with_a_zone_of_their_own")
+            return "%s;TZID=%s:%s" % (prop, zone, ",".join(fmt(x, z=False) for x in loc))
+    return prop + ":" + ",".join(fmt(x) for x in chunk)
+
+
 def simple_rule(rng, is_date):
     f = rng.choice(["DAILY", "DAILY", "WEEKLY", "MONTHLY", "HOURLY" if not is_date else "DAILY"])
     r = {"freq": f, "interval": rng.choice([1, 1, 1, 2, 3])}
@@ -144,10 +177,7 @@ def run_case(srv, part, rng, tier):
     per = (len(exd) + nlines - 1) // nlines
     for i in range(0, len(exd), max(1, per)):
         chunk = exd[i:i + per]
-        if c["is_date"]:
-            exlines.append("EXDATE;VALUE=DATE:" + ",".join(fmt(x) for x in chunk))
-        else:
-            exlines.append("EXDATE:" + ",".join(fmt(x) for x in chunk))
+        exlines.append(date_line(rng, "EXDATE", chunk, c, part))
     # EXRULE
     X = []
     xline = ""
@@ -188,7 +218,7 @@ def run_case(srv, part, rng, tier):
             per = (len(rd) + nl - 1) // nl
             for i in range(0, len(rd), per):
                 chunk = rd[i:i + per]
-                rdlines.append(("RDATE;VALUE=DATE:" if c["is_date"] else "RDATE:") + ",".join(fmt(x) for x in chunk))
+                rdlines.append(date_line(rng, "RDATE", chunk, c, part))
     if not exlines and not xline and not rdlines:
         return
     body = [c["durline"], "RRULE:" + rule_text] + exlines + ([xline] if xline else []) + rdlines
